@@ -1,4 +1,17 @@
-(* Case runner and spec checker (T3) for C04 — stub. *)
+(* Case runner and spec checker (T3) for C04. *)
 From WI Require Import Lib.Base Lib.Info Model.Determinism.
-Definition run_C04 (op : bytes) (input : arg) : arg := AL [].
-Definition check_C04 (op : bytes) (input impl : arg) : arg := AL [].
+Open Scope N_scope.
+
+(* The model of "the same input inspected again": a function of name and content, so the set
+   of distinct outputs is the singleton holding the first output (recorded in the input). *)
+Definition run_C04 (op : bytes) (input : arg) : arg :=
+  AL [AB (arg_bytes (arg_nth 2 input))].
+
+Definition check_C04 (op : bytes) (input impl : arg) : arg :=
+  match impl with
+  | AL [_] => AL []
+  | AL [] => AS "no output observed"
+  | _ => if bytes_eqb op (bs "repeat")
+         then AS "the same content under the same name produced different output in one process (map iteration order?)"
+         else AS "the same content under the same name produced different output under a different TZ / locale / working directory"
+  end.
